@@ -5,7 +5,9 @@ RULE = ("one cell per (plan instance and call at which request A is held inside 
         "all lock plans of PathLocks.tla (read, write, unlink, walk, two-component walk, clone, rename, remove, none, attach) "
         "over the nodes root, a, a/b, c, same or second connection, concrete requests chosen per plan (seeded in quick, all in "
         "thorough); observed: does B reach the backend while A is inside; every simultaneous pair in the recorded log is judged "
-        "by TLC (Trace_Overlap.tla) against the File contract")
+        "by TLC (Trace_Overlap.tla) against the File contract; plus cells whose two fids on one path are created by walks "
+        "released from the backend at the same instant (spin barrier), so that the path node is looked up for the first time "
+        "concurrently (NodeFor.tla: one node, hence one lock, per path)")
 
 
 def run(tier, seed):
